@@ -21,6 +21,9 @@ Definition blen (b : bytes) : Z := Z.of_nat (List.length b).
 Definition take (n : Z) (b : bytes) : bytes := firstn (Z.to_nat n) b.
 Definition drop (n : Z) (b : bytes) : bytes := skipn (Z.to_nat n) b.
 
+(* big-endian number *)
+Definition be_len (b : bytes) : Z := fold_left (fun a x => a * 256 + x) b 0.
+
 (* one frame addressed to this slot: new slot, telegrams yielded, callbacks *)
 Definition slot_step (s : slot) (d : bytes) : slot * list bytes * list cb :=
   match d with
@@ -36,7 +39,12 @@ Definition slot_step (s : slot) (d : bytes) : slot * list bytes * list cb :=
     else if ft =? isotp_frame_type_first then
       match rest with
       | [] => (s, [], [CbTypeErr ft])
-      | b1 :: pl => (mkSlot (lo * 256 + b1) (Some pl) 0, [], [CbFirst d])
+      | b1 :: pl =>
+        (* ISO 15765-2:2016: a 12 bit length of zero announces the length as 32 bit number in the next four bytes
+           (since the fix commit "ISO-TP first frames of telegrams longer than 4095 bytes") *)
+        if (lo * 256 + b1 =? 0) && (6 <=? blen d)
+        then (mkSlot (be_len (take 4 pl)) (Some (drop 4 pl)) 0, [], [CbFirst d])
+        else (mkSlot (lo * 256 + b1) (Some pl) 0, [], [CbFirst d])
       end
     else if ft =? isotp_frame_type_consecutive then
       let expected := (last_idx s + 1) mod 16 in
@@ -156,12 +164,17 @@ Fixpoint cfs (fuel : nat) (fsz : Z) (k : Z) (rest pad : bytes) : list bytes :=
   end.
 
 (* frame size fsz: 8 for classic CAN; 12, 16, 20, 24, 32, 48, 64 for CAN-FD *)
+Definition be4 (n : Z) : bytes := [n / 16777216 mod 256; n / 65536 mod 256; n / 256 mod 256; n mod 256].
 Definition segment (fsz : Z) (t pad : bytes) : list bytes :=
   let n := blen t in
   if n <=? 7 then [ n :: t ++ pad ]
   else if n <=? fsz - 2 then [ 0 :: n :: t ++ pad ]
-  else ((16 + n / 256) :: (n mod 256) :: take (fsz - 2) t)
-       :: cfs (List.length t) fsz 1 (drop (fsz - 2) t) pad.
+  else if n <=? 4095 then
+       ((16 + n / 256) :: (n mod 256) :: take (fsz - 2) t)
+       :: cfs (List.length t) fsz 1 (drop (fsz - 2) t) pad
+  else (* more than 4095 bytes: FF_DL = 0, then the length as 32 bit number *)
+       (16 :: 0 :: be4 n ++ take (fsz - 6) t)
+       :: cfs (List.length t) fsz 1 (drop (fsz - 6) t) pad.
 
 (* ---------- wire ---------- *)
 Definition frame_of_tok (t : tok) : frame := (tz (tnth (tl t) 0), tzs (tnth (tl t) 1)).
